@@ -43,20 +43,24 @@ theorem oinv_idle {s s' : State} {a : ActorId} {c : Choice} (inv1 : Inv1 s) (lw 
         try simp only [hown] at gA
         try goal_simp
         grind
-    · have := gB b; have := m5 b (s.loc b).sid; have := m5 a (s.loc b).sid
+    · have hgBb := gB b; have := m5 b (s.loc b).sid; have := m5 a (s.loc b).sid
       clear gA gB gC m5 b2
       by_cases hba : b = a
       · subst hba; (try goal_simp); grind
       · have hab : ¬ a = b := fun h => hba h.symm
         try simp only [State.put, State.putS, State.finish, State.write, upd_apply, if_neg hba, if_neg hab]
-        (try goal_simp); grind
-    · have := gC b; have := b2 b
+        first
+        | exact hgBb
+        | ((try goal_simp); grind)
+    · have hgCb := gC b; have := b2 b
       clear gA gB gC m5 b2
       by_cases hba : b = a
       · subst hba; (try goal_simp); grind
       · have hab : ¬ a = b := fun h => hba h.symm
         try simp only [State.put, State.putS, State.finish, State.write, upd_apply, if_neg hba, if_neg hab]
-        (try goal_simp); grind)
+        first
+        | exact hgCb
+        | ((try goal_simp); grind))
 
 set_option maxHeartbeats 1000000 in
 theorem oinv_begin {s s' : State} {a : ActorId} {c : Choice} (inv1 : Inv1 s) (lw : Lwf s) (bnd : Bnd s) (sv : Sinv s) (g : Oinv s)
@@ -97,20 +101,24 @@ theorem oinv_begin {s s' : State} {a : ActorId} {c : Choice} (inv1 : Inv1 s) (lw
         try simp only [hown] at gA
         try goal_simp
         grind
-    · have := gB b; have := m5 b (s.loc b).sid; have := m5 a (s.loc b).sid
+    · have hgBb := gB b; have := m5 b (s.loc b).sid; have := m5 a (s.loc b).sid
       clear gA gB gC m5 b2
       by_cases hba : b = a
       · subst hba; (try goal_simp); grind
       · have hab : ¬ a = b := fun h => hba h.symm
         try simp only [State.put, State.putS, State.finish, State.write, upd_apply, if_neg hba, if_neg hab]
-        (try goal_simp); grind
-    · have := gC b; have := b2 b
+        first
+        | exact hgBb
+        | ((try goal_simp); grind)
+    · have hgCb := gC b; have := b2 b
       clear gA gB gC m5 b2
       by_cases hba : b = a
       · subst hba; (try goal_simp); grind
       · have hab : ¬ a = b := fun h => hba h.symm
         try simp only [State.put, State.putS, State.finish, State.write, upd_apply, if_neg hba, if_neg hab]
-        (try goal_simp); grind)
+        first
+        | exact hgCb
+        | ((try goal_simp); grind))
 
 set_option maxHeartbeats 1000000 in
 theorem oinv_commit {s s' : State} {a : ActorId} {c : Choice} (inv1 : Inv1 s) (lw : Lwf s) (bnd : Bnd s) (sv : Sinv s) (g : Oinv s)
@@ -151,20 +159,24 @@ theorem oinv_commit {s s' : State} {a : ActorId} {c : Choice} (inv1 : Inv1 s) (l
         try simp only [hown] at gA
         try goal_simp
         grind
-    · have := gB b; have := m5 b (s.loc b).sid; have := m5 a (s.loc b).sid
+    · have hgBb := gB b; have := m5 b (s.loc b).sid; have := m5 a (s.loc b).sid
       clear gA gB gC m5 b2
       by_cases hba : b = a
       · subst hba; (try goal_simp); grind
       · have hab : ¬ a = b := fun h => hba h.symm
         try simp only [State.put, State.putS, State.finish, State.write, upd_apply, if_neg hba, if_neg hab]
-        (try goal_simp); grind
-    · have := gC b; have := b2 b
+        first
+        | exact hgBb
+        | ((try goal_simp); grind)
+    · have hgCb := gC b; have := b2 b
       clear gA gB gC m5 b2
       by_cases hba : b = a
       · subst hba; (try goal_simp); grind
       · have hab : ¬ a = b := fun h => hba h.symm
         try simp only [State.put, State.putS, State.finish, State.write, upd_apply, if_neg hba, if_neg hab]
-        (try goal_simp); grind)
+        first
+        | exact hgCb
+        | ((try goal_simp); grind))
 
 set_option maxHeartbeats 1000000 in
 theorem oinv_abort {s s' : State} {a : ActorId} {c : Choice} (inv1 : Inv1 s) (lw : Lwf s) (bnd : Bnd s) (sv : Sinv s) (g : Oinv s)
@@ -205,20 +217,24 @@ theorem oinv_abort {s s' : State} {a : ActorId} {c : Choice} (inv1 : Inv1 s) (lw
         try simp only [hown] at gA
         try goal_simp
         grind
-    · have := gB b; have := m5 b (s.loc b).sid; have := m5 a (s.loc b).sid
+    · have hgBb := gB b; have := m5 b (s.loc b).sid; have := m5 a (s.loc b).sid
       clear gA gB gC m5 b2
       by_cases hba : b = a
       · subst hba; (try goal_simp); grind
       · have hab : ¬ a = b := fun h => hba h.symm
         try simp only [State.put, State.putS, State.finish, State.write, upd_apply, if_neg hba, if_neg hab]
-        (try goal_simp); grind
-    · have := gC b; have := b2 b
+        first
+        | exact hgBb
+        | ((try goal_simp); grind)
+    · have hgCb := gC b; have := b2 b
       clear gA gB gC m5 b2
       by_cases hba : b = a
       · subst hba; (try goal_simp); grind
       · have hab : ¬ a = b := fun h => hba h.symm
         try simp only [State.put, State.putS, State.finish, State.write, upd_apply, if_neg hba, if_neg hab]
-        (try goal_simp); grind)
+        first
+        | exact hgCb
+        | ((try goal_simp); grind))
 
 set_option maxHeartbeats 1000000 in
 theorem oinv_after {s s' : State} {a : ActorId} {c : Choice} (inv1 : Inv1 s) (lw : Lwf s) (bnd : Bnd s) (sv : Sinv s) (g : Oinv s)
@@ -259,20 +275,24 @@ theorem oinv_after {s s' : State} {a : ActorId} {c : Choice} (inv1 : Inv1 s) (lw
         try simp only [hown] at gA
         try goal_simp
         grind
-    · have := gB b; have := m5 b (s.loc b).sid; have := m5 a (s.loc b).sid
+    · have hgBb := gB b; have := m5 b (s.loc b).sid; have := m5 a (s.loc b).sid
       clear gA gB gC m5 b2
       by_cases hba : b = a
       · subst hba; (try goal_simp); grind
       · have hab : ¬ a = b := fun h => hba h.symm
         try simp only [State.put, State.putS, State.finish, State.write, upd_apply, if_neg hba, if_neg hab]
-        (try goal_simp); grind
-    · have := gC b; have := b2 b
+        first
+        | exact hgBb
+        | ((try goal_simp); grind)
+    · have hgCb := gC b; have := b2 b
       clear gA gB gC m5 b2
       by_cases hba : b = a
       · subst hba; (try goal_simp); grind
       · have hab : ¬ a = b := fun h => hba h.symm
         try simp only [State.put, State.putS, State.finish, State.write, upd_apply, if_neg hba, if_neg hab]
-        (try goal_simp); grind)
+        first
+        | exact hgCb
+        | ((try goal_simp); grind))
 
 set_option maxHeartbeats 1000000 in
 theorem oinv_use {s s' : State} {a : ActorId} {c : Choice} (inv1 : Inv1 s) (lw : Lwf s) (bnd : Bnd s) (sv : Sinv s) (g : Oinv s)
@@ -313,20 +333,24 @@ theorem oinv_use {s s' : State} {a : ActorId} {c : Choice} (inv1 : Inv1 s) (lw :
         try simp only [hown] at gA
         try goal_simp
         grind
-    · have := gB b; have := m5 b (s.loc b).sid; have := m5 a (s.loc b).sid
+    · have hgBb := gB b; have := m5 b (s.loc b).sid; have := m5 a (s.loc b).sid
       clear gA gB gC m5 b2
       by_cases hba : b = a
       · subst hba; (try goal_simp); grind
       · have hab : ¬ a = b := fun h => hba h.symm
         try simp only [State.put, State.putS, State.finish, State.write, upd_apply, if_neg hba, if_neg hab]
-        (try goal_simp); grind
-    · have := gC b; have := b2 b
+        first
+        | exact hgBb
+        | ((try goal_simp); grind)
+    · have hgCb := gC b; have := b2 b
       clear gA gB gC m5 b2
       by_cases hba : b = a
       · subst hba; (try goal_simp); grind
       · have hab : ¬ a = b := fun h => hba h.symm
         try simp only [State.put, State.putS, State.finish, State.write, upd_apply, if_neg hba, if_neg hab]
-        (try goal_simp); grind)
+        first
+        | exact hgCb
+        | ((try goal_simp); grind))
 
 set_option maxHeartbeats 1000000 in
 theorem oinv_sess {s s' : State} {a : ActorId} {c : Choice} (inv1 : Inv1 s) (lw : Lwf s) (bnd : Bnd s) (sv : Sinv s) (g : Oinv s)
@@ -367,20 +391,24 @@ theorem oinv_sess {s s' : State} {a : ActorId} {c : Choice} (inv1 : Inv1 s) (lw 
         try simp only [hown] at gA
         try goal_simp
         grind
-    · have := gB b; have := m5 b (s.loc b).sid; have := m5 a (s.loc b).sid
+    · have hgBb := gB b; have := m5 b (s.loc b).sid; have := m5 a (s.loc b).sid
       clear gA gB gC m5 b2
       by_cases hba : b = a
       · subst hba; (try goal_simp); grind
       · have hab : ¬ a = b := fun h => hba h.symm
         try simp only [State.put, State.putS, State.finish, State.write, upd_apply, if_neg hba, if_neg hab]
-        (try goal_simp); grind
-    · have := gC b; have := b2 b
+        first
+        | exact hgBb
+        | ((try goal_simp); grind)
+    · have hgCb := gC b; have := b2 b
       clear gA gB gC m5 b2
       by_cases hba : b = a
       · subst hba; (try goal_simp); grind
       · have hab : ¬ a = b := fun h => hba h.symm
         try simp only [State.put, State.putS, State.finish, State.write, upd_apply, if_neg hba, if_neg hab]
-        (try goal_simp); grind)
+        first
+        | exact hgCb
+        | ((try goal_simp); grind))
 
 set_option maxHeartbeats 1000000 in
 theorem oinv_close {s s' : State} {a : ActorId} {c : Choice} (inv1 : Inv1 s) (lw : Lwf s) (bnd : Bnd s) (sv : Sinv s) (g : Oinv s)
@@ -421,20 +449,24 @@ theorem oinv_close {s s' : State} {a : ActorId} {c : Choice} (inv1 : Inv1 s) (lw
         try simp only [hown] at gA
         try goal_simp
         grind
-    · have := gB b; have := m5 b (s.loc b).sid; have := m5 a (s.loc b).sid
+    · have hgBb := gB b; have := m5 b (s.loc b).sid; have := m5 a (s.loc b).sid
       clear gA gB gC m5 b2
       by_cases hba : b = a
       · subst hba; (try goal_simp); grind
       · have hab : ¬ a = b := fun h => hba h.symm
         try simp only [State.put, State.putS, State.finish, State.write, upd_apply, if_neg hba, if_neg hab]
-        (try goal_simp); grind
-    · have := gC b; have := b2 b
+        first
+        | exact hgBb
+        | ((try goal_simp); grind)
+    · have hgCb := gC b; have := b2 b
       clear gA gB gC m5 b2
       by_cases hba : b = a
       · subst hba; (try goal_simp); grind
       · have hab : ¬ a = b := fun h => hba h.symm
         try simp only [State.put, State.putS, State.finish, State.write, upd_apply, if_neg hba, if_neg hab]
-        (try goal_simp); grind)
+        first
+        | exact hgCb
+        | ((try goal_simp); grind))
 
 set_option maxHeartbeats 1000000 in
 theorem oinv_exp {s s' : State} {a : ActorId} {c : Choice} (inv1 : Inv1 s) (lw : Lwf s) (bnd : Bnd s) (sv : Sinv s) (g : Oinv s)
@@ -475,19 +507,23 @@ theorem oinv_exp {s s' : State} {a : ActorId} {c : Choice} (inv1 : Inv1 s) (lw :
         try simp only [hown] at gA
         try goal_simp
         grind
-    · have := gB b; have := m5 b (s.loc b).sid; have := m5 a (s.loc b).sid
+    · have hgBb := gB b; have := m5 b (s.loc b).sid; have := m5 a (s.loc b).sid
       clear gA gB gC m5 b2
       by_cases hba : b = a
       · subst hba; (try goal_simp); grind
       · have hab : ¬ a = b := fun h => hba h.symm
         try simp only [State.put, State.putS, State.finish, State.write, upd_apply, if_neg hba, if_neg hab]
-        (try goal_simp); grind
-    · have := gC b; have := b2 b
+        first
+        | exact hgBb
+        | ((try goal_simp); grind)
+    · have hgCb := gC b; have := b2 b
       clear gA gB gC m5 b2
       by_cases hba : b = a
       · subst hba; (try goal_simp); grind
       · have hab : ¬ a = b := fun h => hba h.symm
         try simp only [State.put, State.putS, State.finish, State.write, upd_apply, if_neg hba, if_neg hab]
-        (try goal_simp); grind)
+        first
+        | exact hgCb
+        | ((try goal_simp); grind))
 
 end Lungo.Conc
